@@ -87,16 +87,10 @@ class Abandoned(Exception):
     """raised by the harness's wrapper around the process' setUp, after the original returned: the run ends inside set-up"""
 
 
-def run_case(case, budget=140):
-    import epyc
-    import epydemic
-    from epydemic import PulseCoupledOscillator, StochasticDynamics, SynchronousDynamics, Dynamics
-
-    g = make_graph(case['graph'])
-    nodes = list(g.nodes())
-    calls = []        # numeric calls in call order: [kind, argument(s), what the implementation returned]
-    orders = []       # per fired event: the nodes handed to cascade, in order
-    fired_calls = []  # (t, n) of every entry of the event function
+def make_probe(calls, orders, fired_calls):
+    """the recording sub-class: notes the ARGUMENT of every numeric call in `calls`, the nodes handed to cascade per fired
+    event in `orders`, every entry of the event function in `fired_calls` (one set of lists per population)"""
+    from epydemic import PulseCoupledOscillator
 
     class Probe(PulseCoupledOscillator):
         def normalisePhase(self, phi):
@@ -132,6 +126,21 @@ def run_case(case, budget=140):
             orders.append([])
             fired_calls.append([t, n])
             return super().fired(t, n)
+    return Probe
+
+
+def run_case(case, budget=140):
+    import epyc
+    import epydemic
+    from epydemic import PulseCoupledOscillator, StochasticDynamics, SynchronousDynamics, Dynamics
+
+    g = make_graph(case['graph'])
+    nodes = list(g.nodes())
+    calls = []        # numeric calls in call order: [kind, argument(s), what the implementation returned]
+    orders = []       # per fired event: the nodes handed to cascade, in order
+    fired_calls = []  # (t, n) of every entry of the event function
+
+    Probe = make_probe(calls, orders, fired_calls)
 
     inst = case.get('inst')
     proc = Probe(inst) if inst is not None else Probe()
@@ -288,6 +297,154 @@ def run_case(case, budget=140):
                     'complete_network': int(is_complete(case)), 'one_node': int(len(nodes) == 1),
                     'period_off_1e-6_grid': int(round(case['period'], 6) != case['period'])}
     return obs
+
+
+# ---------------------------------------------------------------- several populations over one network
+def sub_case(case, j):
+    """population j of a several-population case as a one-population case (what D judges it by)"""
+    pop = case['pops'][j]
+    return {'graph': case['graph'], 'dynamics': case['dynamics'], 'maxtime': case['maxtime'], 'period': pop['period'],
+            'b': pop['b'], 'coupling': pop['coupling'], 'states': pop['states'], 'inst': pop.get('inst')}
+
+
+def run_multi(case, budget=220):
+    """case['pops']: differently named populations (at most one unnamed) composed in ONE ProcessSequence over the same
+    network, each with its own (decorated) parameters and its own scripted initial states.  Every population keeps its
+    own state on the nodes (stateVariable() appends the instance name), so they do not interact, and each is observed by
+    itself: the pending entries of the queue are attributed to the process object that posted them (the entry carries
+    it), the recorded event id is read under that population's own NODE_EVENT_ID, the firing log and the final phases
+    come from that population's own (decorated) results, and the taps are split by the process they name.  A snapshot of
+    every population is taken once the whole sequence is set up and after EVERY event, whoever fired (tag 'event' for the
+    population that fired, 'other' for the rest)."""
+    import epyc
+    from epydemic import PulseCoupledOscillator, StochasticDynamics, SynchronousDynamics, Dynamics, ProcessSequence
+
+    g = make_graph(case['graph'])
+    nodes = list(g.nodes())
+    pops = case['pops']
+    recs = [{'calls': [], 'orders': [], 'fired_calls': [], 'snaps': [], 'taps': []} for _ in pops]
+    procs = []
+    for pop, rec in zip(pops, recs):
+        cls = make_probe(rec['calls'], rec['orders'], rec['fired_calls'])
+        procs.append(cls(pop['inst']) if pop.get('inst') is not None else cls())
+    keys = case.get('keys')
+    seq = ProcessSequence(dict(zip(keys, procs))) if keys else ProcessSequence(list(procs))
+    seq.setMaximumTime(case['maxtime'])
+    dyn = (StochasticDynamics if case['dynamics'] == 'stochastic' else SynchronousDynamics)(seq, g)
+    params = dict(case.get('decoy') or {})
+    for pop, proc in zip(pops, procs):
+        proc.setParameters(params, {PulseCoupledOscillator.PERIOD: pop['period'], PulseCoupledOscillator.B: pop['b'],
+                                    PulseCoupledOscillator.COUPLING: pop['coupling']})
+    script = [x for pop in pops for x in pop['states']]          # set-up runs in sequence order
+    orc = Oracle(seed=0, script={'random': script}, strict=True)
+    taps_all, totals = [], []
+
+    def snapshot(j, tag):
+        proc, rec = procs[j], recs[j]
+        gg = proc.network()
+        finder = dyn._postedEventFinder
+        per = []
+        for n in nodes:
+            i = gg.nodes[n].get(proc.NODE_EVENT_ID, None)
+            try:
+                pt = proc.pendingEventTime(i) if i is not None else None
+            except KeyError:
+                pt = None
+            live = sorted(k for k, ev in finder.items() if ev[2] is proc and ev[4] == n)
+            per.append({'node': n, 'id': i, 'pending': pt, 'live_ids': live})
+        rec['snaps'].append({'tag': tag, 'now': dyn.currentSimulationTime(), 'nodes': per,
+                             'finder': sum(1 for ev in finder.values() if ev[2] is proc),
+                             'heap_live': sum(1 for ev in dyn._postedEvents if ev[3] is not None and ev[2] is proc),
+                             'log_t': list(proc._firingTimes), 'log_n': list(proc._firingNodes), 'ncalls': len(rec['calls'])})
+
+    def everybody(who):
+        totals.append([len(dyn._postedEventFinder), sum(1 for ev in dyn._postedEvents if ev[3] is not None)])
+        for j in range(len(procs)):
+            snapshot(j, 'setup' if who is None else 'event' if j == who else 'other')
+
+    def tap(t, p, name, e):
+        who = [j for j, q in enumerate(procs) if q is p]
+        who = who[0] if who else -1
+        taps_all.append([t, name, e, who])
+        if who >= 0:
+            recs[who]['taps'].append([t, name, e, True])
+        everybody(who)
+        if len(taps_all) > budget:
+            raise Budget('more than %d events' % budget)
+    dyn.eventFired = tap
+    orig_setup = seq.setUp
+
+    def setup(ps):
+        orig_setup(ps)
+        everybody(None)
+    seq.setUp = setup
+
+    install(orc)
+    exc = None
+    rc = None
+    try:
+        rc = dyn.set(params).run(fatal=True)
+    except Budget as e:
+        exc = 'Budget: ' + str(e)
+    except Exception as e:  # observable behaviour: recorded, judged by D
+        exc = type(e).__name__ + ': ' + str(e)
+    finally:
+        uninstall()
+    res = (rc or {}).get(epyc.Experiment.RESULTS, {}) if rc else {}
+    md = (rc or {}).get(epyc.Experiment.METADATA, {}) if rc else {}
+    per_pop = []
+    for proc, rec in zip(procs, recs):
+        own = {k: res.get(proc.decoratedNameInInstance(k)) for k in (PulseCoupledOscillator.FIRING_TIMES, PulseCoupledOscillator.FIRING_NODES,
+                                                                     PulseCoupledOscillator.PHASES)}
+        per_pop.append({'earlier': [], 'exception': exc, 'calls': rec['calls'], 'orders': rec['orders'], 'fired_calls': rec['fired_calls'],
+                        'snaps': rec['snaps'], 'taps': rec['taps'], 'event_attribute': proc.NODE_EVENT_ID,
+                        'firing_times': own[PulseCoupledOscillator.FIRING_TIMES], 'firing_nodes': own[PulseCoupledOscillator.FIRING_NODES],
+                        'phases': own[PulseCoupledOscillator.PHASES], 'fired_name': PulseCoupledOscillator.FIRED})
+    obs = {'exception': exc, 'pops': per_pop, 'taps_all': taps_all, 'totals': totals, 'randoms_used': len(orc.values('random')),
+           'time': md.get(Dynamics.TIME), 'events': md.get(Dynamics.EVENTS), 'fired_name': PulseCoupledOscillator.FIRED}
+    cut = bool(exc and exc.startswith('Budget'))
+    if cut:
+        obs['skipped'] = True
+    obs['stats'] = {'budget_cut': int(cut), 'events_tapped': len(taps_all), 'several_populations_over_one_network': 1,
+                    'several_populations:one_unnamed': int(any(pop.get('inst') is None for pop in pops)),
+                    'several_populations:three': int(len(pops) == 3),
+                    'several_populations:more_than_one_fired': int(sum(1 for r in recs if r['taps']) > 1),
+                    'complete_network': int(is_complete(case)), 'one_node': int(len(nodes) == 1)}
+    return obs
+
+
+def direct_multi(case, obs):
+    """D for several populations over one network: the property, population by population (they do not interact), plus:
+    every tap is the firing of one of the populations and the queue holds nothing but their pending firings"""
+    out = []
+    if obs.get('skipped'):
+        return out
+    if obs['exception'] is not None:
+        return [{'signature': 'exception:several-populations', 'detail': {'exception': obs['exception']}}]
+    k = len(case['pops'])
+    nn = len(case['graph']['nodes'])
+    names = [pop.get('inst') for pop in case['pops']]
+    for tp in obs['taps_all']:
+        if tp[3] < 0 or tp[1] != obs['fired_name']:
+            out.append({'signature': 'foreign-event:several-populations', 'detail': {'tap': tp}})
+            break
+    for i, tot in enumerate(obs['totals']):
+        if tot != [k * nn, k * nn]:
+            out.append({'signature': 'live-entries-total:several-populations',
+                        'detail': {'snap': i - 1, 'finder': tot[0], 'heap_live': tot[1], 'populations': names, 'nodes': nn}})
+            break
+    for j in range(k):
+        seen = set()
+        for v in direct(sub_case(case, j), obs['pops'][j]):
+            if v['signature'] in seen:
+                continue                 # the first of each kind per population
+            seen.add(v['signature'])
+            out.append({'signature': v['signature'] + ':several-populations',
+                        'detail': dict(v.get('detail') or {}, population=j, instance=names[j], populations=names,
+                                       event_attribute=obs['pops'][j].get('event_attribute'))})
+    if obs['events'] is not None and obs['events'] != len(obs['taps_all']):
+        out.append({'signature': 'event-count-differs-from-taps:several-populations', 'detail': {'events': obs['events'], 'taps': len(obs['taps_all'])}})
+    return out
 
 
 # ---------------------------------------------------------------- oracle values, recomputed from the recorded arguments
@@ -450,7 +607,7 @@ def direct(case, obs):
         # synchrony is absorbing on complete networks: sampled when no node is due now (between batches)
         if complete and all(p['pending'] is not None for p in s['nodes']):
             pend = [p['pending'] for p in s['nodes']]
-            if all(pt != now for pt in pend) or s['tag'] == 'setup':
+            if s['tag'] != 'other' and (all(pt != now for pt in pend) or s['tag'] == 'setup'):
                 k, big = groups([code_phase(pt, now, period) for pt in pend])
                 kp, bigp = groups(pend)
                 if last_sample is not None:
